@@ -11,6 +11,11 @@
 
   `Obj` is what a context value looks like to that code: its class (Action of some type, FlowState, Event
   with a name, dict, anything else) and the attributes / keys the member path walks through.
+
+  Wave 6: cases 2 and 3 of the same function (`nameOfSpec`): the object given BY NAME — `match some_flow.Start()`,
+  `match SomeAction.Stop()` (a throw-away flow instance / action is created and asked for the event, then the helper's two
+  `del`s) — and the bare event `match StartFlow(flow_id="f")`.  The name of a flow's REQUEST events is `StartFlow`,
+  `StopFlow`, … — not `Flow<member>`: `nameOfSpecShortcut` is the seeded change C09-e as a model (counterexample only).
 -/
 import NemoVerif.Models.CoreIndex
 
@@ -51,6 +56,11 @@ inductive Err where
   | flowEventNotAvailable -- AssertionError("Event '…' not available!")
   | attributeError       -- AttributeError (`getattr(self, "paused_event")`)
   | changeWithoutArguments -- KeyError('arguments')
+  | unknownFlow          -- KeyError: `state.flow_configs[element_spec.name]` (case 2, flow by name)
+  | delMissingKey        -- KeyError: `del flow_event.arguments["source_flow_instance_uid"]` on an event that has no such argument
+  | unsupportedSpecType  -- ColangRuntimeError("Unsupported type …") (case 2, neither flow nor action)
+  | noMembers            -- IndexError: `element_spec.members[0]` of an empty member list
+  | noName               -- AssertionError: `assert element_spec.name`
   deriving DecidableEq, Repr, Inhabited
 
 def Err.cls : Err → String
@@ -59,7 +69,18 @@ def Err.cls : Err → String
   | .invalidActionEvent => "ColangSyntaxError"
   | .flowEventNotAvailable => "AssertionError"
   | .attributeError => "AttributeError"
-  | .changeWithoutArguments => "KeyError"
+  | .changeWithoutArguments | .unknownFlow | .delMissingKey => "KeyError"
+  | .unsupportedSpecType => "ColangRuntimeError"
+  | .noMembers => "IndexError"
+  | .noName => "AssertionError"
+
+/-- `Except Err String` has decidable equality (core Lean has no instance): used by the kernel-evaluated witnesses -/
+instance : DecidableEq (Except Err String) := fun a b =>
+  match a, b with
+  | .ok x, .ok y => if h : x = y then isTrue (by rw [h]) else isFalse (fun e => h (by cases e; rfl))
+  | .error x, .error y => if h : x = y then isTrue (by rw [h]) else isFalse (fun e => h (by cases e; rfl))
+  | .ok _, .error _ => isFalse (fun e => by cases e)
+  | .error _, .ok _ => isFalse (fun e => by cases e)
 
 /-- the reference spec of a match element: `$var.m1.m2…mk(…)`; `members = none` for a bare `$var` -/
 structure RefSpec where
@@ -151,5 +172,159 @@ def arriveCached (sc : IState × Cache) (a : Arrival) : IState × Cache :=
     | .error _ => sc
 
 def arriveAllCached (s : IState) (as : List Arrival) : IState := (as.foldl arriveCached (s, [])).1
+
+/-! ### cases 2 and 3: the object given by NAME, the bare event -/
+
+/-- `element_spec.spec_type` -/
+inductive SpecType where
+  | flow | action | event | other
+  deriving DecidableEq, Repr, Inhabited
+
+/-- a match element's spec as the name function reads it: `var_name`, `name`, `spec_type`, the member names -/
+structure ElemSpec where
+  varName : Option String := none
+  name : Option String := none
+  specType : SpecType := .event
+  members : Option (List String) := none
+  deriving DecidableEq, Repr, Inhabited
+
+/-- the argument KEYS of the event `FlowState.get_event(member, {})` returns for a throw-away instance, before the flow's own
+    parameters are added (`arguments.update(self.arguments)` only adds keys): what the two `del`s of case 2 look for.
+    `start_event`: flow_instance_uid, flow_id, source_flow_instance_uid, source_head_uid, flow_hierarchy_position, activated;
+    `stop_event` / `pause_event` / `resume_event`: flow_id, flow_instance_uid; `_create_out_event`: source_flow_instance_uid,
+    flow_instance_uid, flow_id. -/
+def flowEventKeys (m : String) : List String :=
+  match m with
+  | "Start" => ["flow_instance_uid", "flow_id", "source_flow_instance_uid", "source_head_uid", "flow_hierarchy_position", "activated"]
+  | "Stop" | "Pause" | "Resume" => ["flow_id", "flow_instance_uid"]
+  | _ => ["source_flow_instance_uid", "flow_instance_uid", "flow_id"]
+
+/-- case 2, flow by name, for a flow that exists: `temp_flow_state.get_event(member, {})`, then
+    `del flow_event.arguments["source_flow_instance_uid"]`, `del flow_event.arguments["flow_instance_uid"]`, then the name -/
+def namedFlowEventName (m : String) : Except Err String :=
+  match flowEventName m with
+  | .error e => .error e
+  | .ok nm =>
+    if !(flowEventKeys m).contains "source_flow_instance_uid" then .error .delMissingKey
+    else if !(flowEventKeys m).contains "flow_instance_uid" then .error .delMissingKey
+    else .ok nm
+
+/-- `get_event_name_from_element(state, flow_state, element)`, all three cases.  `flows` = the keys of `state.flow_configs`.
+    (Not modelled: an exception out of `create_flow_instance` — a default value expression of the named flow that cannot be
+    evaluated.) -/
+def nameOfSpec (flows : List String) (ctx : Ctx) (s : ElemSpec) : Except Err String :=
+  match s.varName with
+  | some v => nameOf ctx { var := v, members := s.members }              -- case 1
+  | none =>
+    match s.members with
+    | some ms =>                                                           -- case 2
+      match s.specType with
+      | .flow =>
+        match s.name with
+        | none => .error .noName
+        | some f =>
+          if !flows.contains f then .error .unknownFlow
+          else match ms with
+            | [] => .error .noMembers
+            | m :: _ => namedFlowEventName m
+      | .action =>
+        match s.name with
+        | none => .error .noName
+        | some a =>
+          match ms with
+          | [] => .error .noMembers
+          | m :: _ => actionEventName a m
+      | _ => .error .unsupportedSpecType
+    | none =>                                                              -- case 3
+      match s.name with
+      | some n => .ok n
+      | none => .error .noName
+
+/-! ### the dispatcher's side: the name of `get_event_from_element` -/
+
+/-- `Action.get_event(member, args)` as far as the NAME goes when the member arguments are `args` (evaluated):
+    the only member whose name depends on them is `Change` (`change_event` reads `args["arguments"]`) -/
+def actionEventNameD (changeArgs : Bool) (a m : String) : Except Err String :=
+  if m = "Change" ∧ changeArgs = true then .ok ("Change" ++ a) else actionEventName a m
+
+/-- the three cases of the two name functions with the action-event name function as a parameter -/
+def nameOfSpecG (an : String → String → Except Err String) (flows : List String) (ctx : Ctx) (s : ElemSpec) : Except Err String :=
+  match s.varName with
+  | some v =>
+    match ctx.find? (·.1 = v) with
+    | none => .error .unknownVariable
+    | some (_, obj) =>
+      match walk obj ((s.members.getD []).dropLast) with
+      | .error e => .error e
+      | .ok o =>
+        match o.kind, s.members.bind List.getLast? with
+        | .event n, _ => if s.members.isSome then .error .eventsHaveNoAttrs else .ok n
+        | .action a, some m => an a m
+        | .flow, some m => flowEventName m
+        | _, _ => .error .unsupportedType
+  | none =>
+    match s.members with
+    | some ms =>
+      match s.specType with
+      | .flow =>
+        match s.name with
+        | none => .error .noName
+        | some f =>
+          if !flows.contains f then .error .unknownFlow
+          else match ms with
+            | [] => .error .noMembers
+            | m :: _ => namedFlowEventName m
+      | .action =>
+        match s.name with
+        | none => .error .noName
+        | some a =>
+          match ms with
+          | [] => .error .noMembers
+          | m :: _ => an a m
+      | _ => .error .unsupportedSpecType
+    | none =>
+      match s.name with
+      | some n => .ok n
+      | none => .error .noName
+
+/-- the NAME of `get_event_from_element(state, flow_state, element)` — the event the DISPATCHER compares an incoming event
+    with (`_compute_event_matching_score`) — when every argument expression evaluates: the same three cases, the same walk,
+    the same two `del`s, `Action.get_event` / `FlowState.get_event` with the evaluated member arguments;
+    `changeArgs` = the member arguments contain `arguments`. -/
+def dispatchNameOfSpec (changeArgs : Bool) (flows : List String) (ctx : Ctx) (s : ElemSpec) : Except Err String :=
+  nameOfSpecG (actionEventNameD changeArgs) flows ctx s
+
+/-- `_add_head_to_event_matching_structures` for a head on ANY match element -/
+def addHeadSpec (s : IState) (k : Key) (flows : List String) (ctx : Ctx) (spec : ElemSpec) : IState :=
+  match nameOfSpec flows ctx spec with
+  | .ok nm => rawAdd s k nm
+  | .error _ => s
+
+/-- one head reaching a match statement of any kind -/
+structure ArrivalS where
+  key : Key
+  stmt : String × Nat
+  spec : ElemSpec
+  flows : List String
+  ctx : Ctx
+  deriving Repr, Inhabited
+
+def arriveS (s : IState) (a : ArrivalS) : IState := addHeadSpec s a.key a.flows a.ctx a.spec
+
+def arriveAllS (s : IState) (as : List ArrivalS) : IState := as.foldl arriveS s
+
+/-! ### the seeded variant (C09-e), for the counterexample only: `return f"Flow{member}"` for a flow given by name -/
+
+def nameOfSpecShortcut (flows : List String) (ctx : Ctx) (s : ElemSpec) : Except Err String :=
+  match s.varName, s.members, s.specType, s.name with
+  | none, some (m :: _), .flow, some f => if !flows.contains f then .error .unknownFlow else .ok ("Flow" ++ m)
+  | _, _, _, _ => nameOfSpec flows ctx s
+
+def arriveShortcut (s : IState) (a : ArrivalS) : IState :=
+  match nameOfSpecShortcut a.flows a.ctx a.spec with
+  | .ok nm => rawAdd s a.key nm
+  | .error _ => s
+
+def arriveAllShortcut (s : IState) (as : List ArrivalS) : IState := as.foldl arriveShortcut s
 
 end NemoVerif.RefName
